@@ -170,6 +170,7 @@ class XEvaluator(Evaluator):
         self.prog = prog
         self.classes = {n: c.node for n, c in prog.classes.items()}
         self.interpreted = set(interpreted_classes)     # classes whose constructor is really interpreted
+        self.interpreted_modules = {"__main__.py", "errors.py", "file.py", "exceptions.py"}   # ... and every class of these modules
         self.world_modules = modules or {}              # dotted stdlib module name -> Module
         self.origins = origins or {}                    # (module dotted, original name) -> value (stubs of repo / stdlib names)
         self.mod_stack = [main_mod]
@@ -178,6 +179,7 @@ class XEvaluator(Evaluator):
         self.stderr: List[str] = []
         self.trace: List[tuple] = []
         self.class_attrs: Dict[tuple, Any] = {}
+        self._yields: List[list] = []
         self.ctor_hooks: Dict[str, Any] = {}            # class name -> callable(ev, args, kwargs) replacing / wrapping construction
         self._class_init_done = set()
         self._global_cache: Dict[tuple, Any] = {}
@@ -320,7 +322,16 @@ class XEvaluator(Evaluator):
                 self.mod_stack.append(k.mod)
                 self.fn_stack.append(None)
                 try:
-                    v = self.expr(k.attrs[attr], Env())
+                    # the class body is a scope: its methods and earlier attributes are visible by plain name
+                    scope = Env()
+                    for mn, mf in k.methods.items():
+                        cl = Closure(mf.node, None, k.mod, name=f"{c}.{mn}")
+                        cl.is_method = not any(d in ("staticmethod",) for d in mf.decorators)
+                        dict.__setitem__(scope, mn, cl)
+                    for an in k.attrs:
+                        if an != attr and (c, an) in self.class_attrs:
+                            dict.__setitem__(scope, an, self.class_attrs[(c, an)])
+                    v = self.expr(k.attrs[attr], scope)
                 finally:
                     self.fn_stack.pop()
                     self.mod_stack.pop()
@@ -522,7 +533,10 @@ class XEvaluator(Evaluator):
                 return Opaque(f"{base._cls}.{attr}")
             if base._cls in self.prog.classes:
                 try:
-                    return self.class_attr(base._cls, attr)
+                    v = self.class_attr(base._cls, attr)
+                    if isinstance(v, Closure) and getattr(v, "is_method", False) and v.bound_self is None:
+                        return Closure(v.fnode, v.env, v.mod, bound_self=base, name=v.name)
+                    return v
                 except Unsupported:
                     pass
             if attr == "args" and self.is_exception_class(base._cls):
@@ -947,6 +961,8 @@ class XEvaluator(Evaluator):
                 raise Raised(TypeError(f"'{base._cls}' object is not subscriptable"))
             if isinstance(base, Opaque):
                 return Opaque(f"{base.label}[...]")
+            if isinstance(idx, Opaque):
+                raise Unsupported(f"subscript with {idx!r}")
             try:
                 return base[idx]
             except (KeyError, IndexError, TypeError) as ex:
@@ -963,6 +979,16 @@ class XEvaluator(Evaluator):
             return self.call(e, env)
         if isinstance(e, ast.Starred):
             raise Unsupported("starred expression")
+        if isinstance(e, ast.Yield):
+            if not self._yields:
+                raise Unsupported("yield outside a generator call")
+            self._yields[-1].append(self.expr(e.value, env) if e.value is not None else None)
+            return None
+        if isinstance(e, ast.YieldFrom):
+            if not self._yields:
+                raise Unsupported("yield outside a generator call")
+            self._yields[-1].extend(self.iterate(self.expr(e.value, env)))
+            return None
         if isinstance(e, ast.UnaryOp) and isinstance(e.op, (ast.UAdd, ast.Invert)):
             v = self.expr(e.operand, env)
             return +v if isinstance(e.op, ast.UAdd) else ~v
@@ -1171,8 +1197,14 @@ class XEvaluator(Evaluator):
             self._call_depth -= 1
             raise Unsupported("call depth")
         try:
-            if any(isinstance(n, (ast.Yield, ast.YieldFrom)) for n in _walk_local(fnode)):
-                raise Unsupported(f"generator function {c.name}")
+            if _is_generator(fnode):
+                # generators are run eagerly: the values are collected and handed out as a finished sequence
+                self._yields.append([])
+                try:
+                    self._run_body(fnode, env)
+                    return _Gen(self._yields[-1])
+                finally:
+                    self._yields.pop()
             return self._run_body(fnode, env)
         finally:
             self._call_depth -= 1
@@ -1195,7 +1227,7 @@ class XEvaluator(Evaluator):
             if init is not None:
                 self.invoke(init, [me] + list(args), kwargs)
             return me
-        if cname not in self.interpreted:
+        if cname not in self.interpreted and self.prog.classes[cname].mod.rel not in self.interpreted_modules:
             return Obj(cname, _opaque=True, _args=list(args), _kwargs=dict(kwargs))
         self._run_init_subclass(cname)
         init = self.methods.get((cname, "__init__"))
@@ -1462,6 +1494,8 @@ class XEvaluator(Evaluator):
                 self.stderr.append(txt)
             elif f is None or (isinstance(f, Obj) and f.__dict__.get("_stream") == "stdout"):
                 self.stdout.append(txt)
+            elif hasattr(f, "write") and not isinstance(f, (Obj, Opaque)):
+                f.write(txt)
             else:
                 raise Unsupported("print to an unmodelled file")
             return None
@@ -1619,6 +1653,17 @@ class _Iter:
 class _WritableClassRef(ClassRef):
     def __init__(self, name, ev):
         super().__init__(name)
+
+
+def _is_generator(fnode) -> bool:
+    c = getattr(fnode, "_sa_is_gen", None)
+    if c is None:
+        c = any(isinstance(n, (ast.Yield, ast.YieldFrom)) for n in _walk_local(fnode))
+        try:
+            fnode._sa_is_gen = c
+        except Exception:
+            pass
+    return c
 
 
 def _walk_local(fnode):
